@@ -303,7 +303,7 @@ func freePort() int {
 	defer portMu.Unlock()
 	for i := 0; i < 10000; i++ {
 		p := 20000 + portRng.Intn(10000)
-		if usedPort[p] {
+		if usedPort[p] || !hx.ReservePort(p) {
 			continue
 		}
 		l, err := net.Listen("tcp", fmt.Sprintf("127.0.0.1:%d", p))
@@ -857,6 +857,7 @@ func main() {
 	fs.Parse(os.Args[2:])
 	tr := hx.NewTrace(*out)
 	defer tr.Close()
+	defer hx.ReleasePorts()
 	switch mode {
 	case "sched":
 		var inp input
